@@ -208,6 +208,16 @@ class System:
             self.stack.pop()
             if not self.stack:
                 self.root_done = True
+        elif kind == 'fail':
+            # an exception raised in the body of the innermost `with Element(...)` and caught by the caller op[1] levels up:
+            # what the with statement does - each __exit__ is given the exception and, returning false, lets it travel on
+            err = KeyError('raised inside the element and caught by the caller')
+            for _ in range(op[1]):
+                if self.elems.pop().__exit__(KeyError, err, None):
+                    break
+                self.stack.pop()
+            if not self.stack:
+                self.root_done = True
         elif kind == 'chars':
             st.characters(op[1])
             self._text(op[1])
@@ -385,6 +395,10 @@ def make_ops(tier, chunk, nchunks, api):
             out.append(['pi', 'a'])
             if system.stream._canIndentStk:
                 out.append(['preserve'])
+            if api == 'element':
+                for k in (1, 2):
+                    if len(system.elems) >= k:
+                        out.append(['fail', k])
         out.append(['comment', 'a'])
         strs = REPS if chunk == 0 else []
         if api != 'element':
@@ -1011,7 +1025,8 @@ def run_case_lis(case):
 
 
 LAS_STRINGS = ['x<&>"\'y', 'p\x00q', 'p\x01\x1fq', 'p\x7f\x85q', 'p\xe9\ufffeq', 'p\uffffq', 'p]]>--q', 'p\tq', 'p&#0;q', 'p&nbsp;q']
-LAS_SLOTS = ['well_value', 'well_desc', 'well_unit', 'curve_desc', 'curve_unit', 'curve_mnem', 'param_value', 'param_desc', 'vers_desc']
+LAS_SLOTS = ['well_value', 'well_desc', 'well_unit', 'curve_desc', 'curve_unit', 'curve_mnem', 'param_value', 'param_desc', 'vers_desc',
+             'other_line', 'user_section_line']
 
 
 def build_awkward_las(slot, s):
@@ -1029,7 +1044,15 @@ def build_awkward_las(slot, s):
         params=[['BHT', 'DEGC', fld('param_value', '35.5'), fld('param_desc', 'BOTTOM HOLE TEMPERATURE')]],
         frames=[['100.0', '1.5'], ['100.5', '2.5'], ['101.0', '3.5']],
         vdesc=(fld('vers_desc', 'CWLS LOG ASCII STANDARD - VERSION 2.0'), 'ONE LINE PER DEPTH STEP'))
-    return las_ref.render(content)
+    text = las_ref.render(content)
+    if slot in ('other_line', 'user_section_line'):
+        # free text sections: ~Other (standard) and a user defined one; their lines are text, written as they are
+        assert '\n' not in s and '\r' not in s and not s.lstrip().startswith('~') and s.strip(), 'not a free text line'
+        title = '~Other Information' if slot == 'other_line' else '~Tops'
+        head, sep, tail = text.partition('~ASCII')
+        assert sep
+        text = head + title + '\n' + s + '\nplain second line\n' + sep + tail
+    return text
 
 
 def run_case_las(case):
